@@ -54,6 +54,11 @@ def decDense (sc : SC α) (j : Json) : R (Dense α) := do
 def encDense (sc : SC α) (T : Dense α) : Json :=
   Json.mkObj [("shape", natsJ T.shape), ("data", encList sc T.data)]
 
+def optInts (j : Json) (k : String) : R (Option (List Int)) :=
+  match fieldOpt j k with
+  | none => .ok none
+  | some v => do let l ← asInts v; .ok (some l)
+
 def optNats (j : Json) (k : String) : R (Option (List Nat)) :=
   match fieldOpt j k with
   | none => .ok none
@@ -163,14 +168,14 @@ def opHosvd (sc : SC α) (j : Json) : R Json := do
   let X ← field j "X" >>= decDense sc
   let tol ← field j "tol" >>= sc.dec
   let dimorder ← optNats j "dimorder"
-  let ranks ← optNats j "ranks"
+  let ranks ← optInts j "ranks"
   let seq ← field j "sequential" >>= asBool
   let calls ← field j "eigh" >>= decEighCalls sc
   let eigh : Nat → Mat α → List α × Mat α := fun c _ => replay calls ([], []) c
   .ok (exceptJ (fun (r : Ttensor α × List (ModeRec α)) =>
       Json.mkObj [("core", encDense sc r.1.core), ("factors", listJ (encMat sc) r.1.factors),
         ("trace", listJ (modeRecJ sc) r.2)])
-    (hosvdRun sc.ops eigh X tol dimorder seq ranks))
+    (hosvdRunI sc.ops eigh X tol dimorder seq ranks))
 
 /-- one pass of `for n in dimorder:` of tucker_als: the tensor handed to `nvecs` and the new
 factor list, the recorded `nvecs` output being used for the replaced factor -/
@@ -192,7 +197,7 @@ def decInit (sc : SC α) (j : Json) : R (Init α) :=
 
 def opTuckerAls (sc : SC α) (j : Json) : R Json := do
   let X ← field j "X" >>= decDense sc
-  let rank ← field j "rank" >>= asNats
+  let rank ← field j "rank" >>= asInts
   let stoptol ← field j "stoptol" >>= sc.dec
   let maxiters ← field j "maxiters" >>= asInt
   let dimorder ← optNats j "dimorder"
@@ -206,7 +211,7 @@ def opTuckerAls (sc : SC α) (j : Json) : R Json := do
         ("uinit", listJ (encMat sc) r.1.uinit), ("iters", toJson r.1.iters),
         ("normresidual", sc.enc r.1.normresidual), ("fit", sc.enc r.1.fit),
         ("trace", listJ (iterRecJ sc) r.2)])
-    (tuckerAlsRun sc.ops nvecs uniform X rank stoptol maxiters dimorder init))
+    (tuckerAlsRunI sc.ops nvecs uniform X rank stoptol maxiters dimorder init))
 
 end generic
 
